@@ -88,8 +88,20 @@ func ruleSRTTags(p *Prog, l *Ledger, tier string) {
 		}
 	}
 	isData := func(v ssa.Value) bool {
-		_, f, _ := loadedField(v)
-		return f == "Data"
+		if _, f, _ := loadedField(v); f == "Data" {
+			return true
+		}
+		// name, _ := tr.TagName(); string(name): the same lower-cased tag name, read without building the token
+		if cv, ok := v.(*ssa.Convert); ok && isStringT(cv.Type()) {
+			if ex, ok := cv.X.(*ssa.Extract); ok && ex.Index == 0 {
+				if c, ok := ex.Tuple.(*ssa.Call); ok {
+					if sc := c.Call.StaticCallee(); sc != nil && sc.String() == "(*golang.org/x/net/html.Tokenizer).TagName" {
+						return true
+					}
+				}
+			}
+		}
+		return false
 	}
 	isTokType := func(v ssa.Value) bool {
 		c, ok := v.(*ssa.Call)
@@ -451,6 +463,27 @@ func ruleWebVTTSettings(p *Prog, l *Ledger, tier string) {
 					continue
 				}
 				parts := concatParts(bo)
+				// prefix + value in a helper that receives "key:" whole: every call site is one setting
+				for j, part := range parts[:len(parts)-1] {
+					if _, isPar := part.(*ssa.Parameter); !isPar || h == wr {
+						continue
+					}
+					for _, inst := range p.instantiate(wr, h, []ssa.Value{part, parts[j+1]}) {
+						k, ok := constStr(inst[0])
+						if !ok || len(k) < 2 {
+							continue
+						}
+						sep := k[len(k)-1:]
+						if sep != ":" && sep != "=" {
+							continue
+						}
+						fs := strset{}
+						for _, v := range inst[1:] {
+							traceFieldOrGetter(v, fs)
+						}
+						note(sep, k[:len(k)-1], fs)
+					}
+				}
 				for j, part := range parts[:len(parts)-1] {
 					c, ok := constStr(part)
 					if !ok || c == "" {
